@@ -14,7 +14,9 @@ Record rm_row := { rm_cat : N; rm_ops : N; rm_fixed : N; rm_flags : N; rm_feat :
 Record tables := {
   t_inst : list inst_row; t_addl : list addl_row; t_iflags : list N; t_rwflags : list (N * N);
   t_rwa : list rw_row; t_rwb : list rw_row; t_op : list rw_op_row; t_rm : list rm_row;
-  t_ternlog : list N (* Inst::kIdVpternlogd/q *) }.
+  t_ternlog : list N (* Inst::kIdVpternlogd/q *);
+  t_group_mask : list N (* rw_reg_group_byte_mask_table of x86instapi.cpp, indexed by RegGroup *);
+  t_vex_flags : N (* InstFlags::kVex | InstFlags::kEvex *) }.
 
 Definition d_inst := {| ir_a := 0; ir_b := 0; ir_addl := 0; ir_avx512 := 0; ir_cflags := 0 |}.
 Definition d_addl := {| ad_iflags := 0; ad_rwflags := 0; ad_feat := [] |}.
@@ -77,9 +79,8 @@ Definition fill_trailing (v : N) := if v =? 0 then 0 else N.ones (N.size v).
 Definition clear (a b : N) := N.ldiff a b.
 Definition u8 x := N.land x 255.
 
-(* rw_reg_group_byte_mask_table (indexed by RegGroup; 10 initialisers, 16 entries) *)
-Definition group_byte_mask (g : N) : N :=
-  match g with 0 => 255 | 1 => ones64 | 2 => 255 | 3 => 255 | 4 => 3 | 5 => 255 | 6 => 255 | 7 => 1023 | 8 => 65535 | 9 => 255 | _ => 0 end.
+(* rw_reg_group_byte_mask_table is dumped from the build: field t_group_mask (was a hand-copied table until round 4) *)
+Definition group_byte_mask (T : tables) (g : N) : N := nthN (t_group_mask T) g 0.
 
 (* ------------------------------------------------------------------ results *)
 Record op_rw := { o_flags : N; o_phys : N; o_rmsize : N; o_clc : N; o_r : N; o_w : N; o_e : N }.
@@ -107,8 +108,9 @@ Definition zext_gp (o : op_rw) (regsize native : N) : op_rw :=
   else o.
 Definition zext_avx_vec (o : op_rw) : op_rw :=
   let m := not64 (fill_trailing (o_w o)) in if m =? 0 then o else set_e (add_flags o fZExt) m.
-Definition zext_non_vec (o : op_rw) (group : N) : op_rw :=
-  let m := N.land (not64 (fill_trailing (o_w o))) (group_byte_mask group) in if m =? 0 then o else set_e (add_flags o fZExt) m.
+(* gm = rw_reg_group_byte_mask_table[reg group] *)
+Definition zext_non_vec (o : op_rw) (gm : N) : op_rw :=
+  let m := N.land (not64 (fill_trailing (o_w o))) gm in if m =? 0 then o else set_e (add_flags o fZExt) m.
 
 Definition native_gp_size (arch64 : bool) : N := if arch64 then 8 else 4.
 
@@ -129,7 +131,14 @@ Definition handle_avx512 (q : query) (avx512 : N) (out : rw_info) : rw_info :=
   else out.
 
 (* one operand of the generic path; returns the operand info (before the Reg/Mem post-pass) *)
-Definition generic_op (T : tables) (native : N) (row : rw_row) (i : nat) (src : operand) : op_rw :=
+(* with fixes/C12-legacy-sse-keeps-upper-bits.patch: a legacy (not VEX/EVEX/XOP) instruction does not clear bits above the destination *)
+Definition legacy_vec_clip (vexlike : bool) (rt : N) (o : op_rw) : op_rw :=
+  if (reg_group rt =? grp_vec) && negb vexlike then
+    let m := N.land (o_e o) (lsb_mask (N.min (reg_size rt) 64)) in
+    if m =? 0 then set_e (clr_flags o fZExt) 0 else set_e o m
+  else o.
+
+Definition generic_op_v (T : tables) (vexlike : bool) (native : N) (row : rw_row) (i : nat) (src : operand) : op_rw :=
   let d := nthN (t_op T) (nth i (rr_ops row) 0) d_op in
   (* [i] is the index of the record's entry: the operand's position, or its entry in the explicit form (see select_row) *)
   if negb (is_reg_or_mem src) then op_zero else
@@ -141,12 +150,15 @@ Definition generic_op (T : tables) (native : N) (row : rw_row) (i : nat) (src : 
   | OReg rt _ =>
       if test fl fW then
         if reg_group rt =? grp_gp then zext_gp o (reg_size rt) native
-        else if test (or_flags d) fZExt then zext_non_vec o (reg_group rt) else o
+        else if test (or_flags d) fZExt then legacy_vec_clip vexlike rt (zext_non_vec o (group_byte_mask T (reg_group rt))) else o
       else o
   | _ =>
       let o := if mem_has_base src && negb (test (o_flags o) fMemBaseRW) then add_flags o fMemBaseRead else o in
       if mem_has_index src && negb (test (o_flags o) fMemIndexRW) then add_flags o fMemIndexRead else o
   end.
+
+(* the VEX/EVEX/XOP view (the one the byte-level theorems about vector registers speak of) *)
+Definition generic_op (T : tables) := generic_op_v T true.
 
 Fixpoint mapi {A B} (f : nat -> A -> B) (i : nat) (l : list A) : list B :=
   match l with [] => [] | x :: r => f i x :: mapi f (S i) r end.
@@ -186,10 +198,10 @@ Definition select_row (T : tables) (ii : inst_row) (nops : nat) : rw_row * list 
     end
   else (sel, seq 0 6).
 
-Definition generic (T : tables) (q : query) (row : rw_row) (omap : list nat) (rm : rm_row) (avx512 : N) (out0 : rw_info) : rw_info :=
+Definition generic (T : tables) (q : query) (vexlike : bool) (row : rw_row) (omap : list nat) (rm : rm_row) (avx512 : N) (out0 : rw_info) : rw_info :=
   let ops := q_ops q in
   let native := native_gp_size (q_arch64 q) in
-  let outs := mapi (fun i src => generic_op T native row (nth i omap i) src) 0 ops in
+  let outs := mapi (fun i src => generic_op_v T vexlike native row (nth i omap i) src) 0 ops in
   let regmask := fold_left (fun acc p => if is_reg (snd p) && N.testbit (rm_ops rm) (N.of_nat (nth (fst p) omap (fst p)))
                                          then N.lor acc (N.shiftl 1 (N.of_nat (fst p))) else acc) (combine (seq 0 (length ops)) ops) 0 in
   let maxsz := fold_left (fun acc o => if is_reg o then N.max acc (op_size o) else acc) ops 0 in
@@ -430,7 +442,7 @@ Definition query_rw_info (T : tables) (q : query) : option rw_info :=
                 i_extra := op_zero; i_ops := [] |} in
   let av := ir_avx512 ii in
   match rr_cat row with
-  | 0 | 1 => Some (generic T q row omap rm av out)
+  | 0 | 1 => Some (generic T q (test (ir_cflags ii) (t_vex_flags T)) row omap rm av out)
   | 2 => cat_mov q out
   | 3 => cat_movabs q out
   | 4 => cat_imul q out
